@@ -65,7 +65,7 @@ MAXLINE = 250
 
 
 def quick_runs(prop):
-    return {'C10': 2600, 'C11': 1500, 'C12': 1900}.get(prop, 1500)
+    return {'C10': 2600, 'C11': 1300, 'C12': 1500}.get(prop, 1300)
 
 
 ###############################################################################
@@ -1790,6 +1790,9 @@ class Gen(object):
         a = m.ar.get(name)
         if a is None:
             rank = rng.choice([1, 1, 1, 2, 2, 3]) if self.prop == 'C12' else rng.choice([1, 1, 2])
+            if rank > 2 and is_str(name) and 0 < self.gc_every < 5:
+                # a collection per allocation over 1331 descriptors costs seconds per run
+                rank = 2
             dims = [10] * rank
         else:
             dims = a['d']
@@ -1934,6 +1937,12 @@ class Gen(object):
         cfg = {'fns': self.fns, 'plets': [], 'field': 0, 'base': rng.choice([None, None, None, 0, 1, 1])}
         if prop == 'C12':
             cfg['base'] = rng.choice([None, 0, 1, 1])
+        if rng.random() < 0.4:
+            cfg['gc'] = {'every': 0, 'phase': 0, 'skip': 0}
+        else:
+            k = rng.choice([1, 1, 2, 2, 3, 4, 5, 7, 11])
+            cfg['gc'] = {'every': k, 'phase': rng.randrange(k), 'skip': rng.choice([0, 0, rng.randint(0, 40)])}
+        self.gc_every = cfg['gc']['every']
         m = Model(dict(cfg, max_memory=65534))
         m.base = cfg['base'] or 0
         m.fns_ok = bool(self.fns)
@@ -1958,11 +1967,6 @@ class Gen(object):
         else:
             slack = int(150 * (400.0 ** rng.random()))
             cfg['max_memory'] = min(65534, floor + 514 + slack)
-        if rng.random() < 0.4:
-            cfg['gc'] = {'every': 0, 'phase': 0, 'skip': 0}
-        else:
-            k = rng.choice([1, 1, 2, 2, 3, 4, 5, 7, 11])
-            cfg['gc'] = {'every': k, 'phase': rng.randrange(k), 'skip': rng.choice([0, 0, rng.randint(0, 40)])}
         cfg['peek_n'] = {'C11': 3, 'C10': 1, 'C12': 1}[prop]
         cfg['sweep_every'] = {'C11': 5, 'C10': 14, 'C12': 12}[prop]
         m.mem = cfg['max_memory']
@@ -2039,7 +2043,11 @@ class Gen(object):
             while True:
                 dims = [rng.choice([0, 1, 2, 3, 4, 5, 7, 10, 30, rng.randint(0, 30)]) if big or rank == 1
                         else rng.randint(0, 6) for _ in range(rank)]
-                if n_elems(dims, 0) <= (4000 if big else 400):
+                cap = 4000 if big else 400
+                if is_str(name) and 0 < self.gc_every < 5:
+                    # a collection per allocation over thousands of descriptors costs seconds per run
+                    cap = 300
+                if n_elems(dims, 0) <= cap:
                     break
             if rng.random() < 0.03:
                 dims[rng.randrange(rank)] = -1
